@@ -1,13 +1,51 @@
 /-
   C05 — logfmt mode: one line of key=value pairs that parses back to what was logged.
+
+  The encoder model (Logg.Model.Encoder / Quote) is tied to the code byte for byte by the
+  correspondence; `isPrint` is strconv.IsPrint through the regenerated table.
+  Proved here: cleanliness of the quoting for ALL byte strings, and the one-line theorem for whole
+  records (groups at any depth and position). The parse-back of every pair with its exact value is
+  decided per generated record by the oracle (tokenizer + strconv.Unquote) — see DESIGN.md.
 -/
-import Logg.Model.Encoder
-import Logg.Model.Unquote
+import Logg.Lemmas.EncoderClean
 
 namespace Logg.Props.C05
-open Logg
+open Logg Logg.Lemmas
 
--- placeholder example (theorems follow)
-example : goQuote (fun _ => true) [97] = [34, 97, 34] := by decide
+/-- (1) Every string-like value (message, logger name, strings, errors, Stringers, durations, []byte,
+    the %v fallback) is written through Go-syntax quoting, and whatever bytes go in — CR, LF, quotes,
+    backslashes, control bytes, invalid UTF-8 — no control byte and no DEL comes out: nothing can split
+    the line or reach the terminal raw. -/
+theorem quoted_value_has_no_control_byte (s : Bytes) : Clean (goQuote isPrintTable s) :=
+  goQuote_clean isPrintTable isPrintTable_safe s
+
+/-- the quoted form starts and ends with a quote -/
+theorem quoted_value_is_delimited (isPrint : Nat → Bool) (s : Bytes) :
+    ∃ body, goQuote isPrint s = 34 :: body ++ [34] := ⟨_, rfl⟩
+
+/-- (2) A logfmt record is exactly one line: the payload is `body ++ [LF]` and `body` contains no control
+    byte at all — for every message, logger name, severity, attribute list with groups nested to any depth
+    at any position, caller on or off. Assumed: the texts rendered by the standard library (timestamp,
+    floats, times) and the keys (legal logfmt keys) contain no control byte. -/
+theorem logfmt_one_line (p : Presentation) (depth : Nat) (r : Record) (out : Bytes)
+    (hts : NoC0 r.ts) (hattrs : ∀ a ∈ r.attrs, attrOK true depth a = true)
+    (h : encodeRecord .logfmt isPrintTable p depth r = some out) :
+    ∃ body, out = body ++ [10] ∧ NoC0 body := by
+  unfold encodeRecord at h
+  split at h
+  · cases h; exact ⟨[], rfl, fun c hc => by simp at hc⟩
+  · simp only [] at h
+    cases h
+    refine ⟨_, rfl, ?_⟩
+    exact plainBody_noC0 { fmt := .logfmt, isPrint := isPrintTable } ⟨by decide, isPrintTable_safe⟩ _ depth r hts
+      (by intro a ha; have := hattrs a ha; simpa [EncCfg.json] using this)
+
+/-- (3) A blank Print (Always severity, whitespace-only message) is exactly one line feed. -/
+theorem blank_print_is_newline (f : Fmt) (isPrint : Nat → Bool) (p : Presentation) (depth : Nat) (r : Record)
+    (hl : r.lvl = Lv.always) (hb : isBlank r.msg = true) : encodeRecord f isPrint p depth r = some [10] := by
+  simp [encodeRecord, hl, hb]
+
+-- non-vacuity: a value with a line feed, a quote and an invalid byte (any isPrint that accepts 'a')
+example : goQuote (fun r => r == 97) [97, 10, 34, 255] = [34, 97, 92, 110, 92, 34, 92, 120, 102, 102, 34] := by decide
 
 end Logg.Props.C05
